@@ -1,0 +1,72 @@
+//! Verification hooks, compiled only with `--cfg toml_rs_toml_verif`.
+//!
+//! They observe; they never change what the parser accepts or produces.
+
+use std::cell::RefCell;
+use std::collections::BTreeMap;
+
+/// What the hooks saw on this thread since the last [`reset`].
+#[derive(Clone, Debug, Default)]
+pub struct Snapshot {
+    /// calls of `from_utf8_unchecked` per safety justification (one key per call-site family)
+    pub utf8_sites: BTreeMap<&'static str, u64>,
+    /// calls whose bytes were not valid UTF-8 (justification, bytes)
+    pub utf8_invalid: Vec<(&'static str, Vec<u8>)>,
+    /// highest value of the recursion counter
+    pub depth_high_water: usize,
+    /// longest dotted key checked against the recursion limit
+    pub max_key_depth: usize,
+    /// `exit()` calls that found the counter at zero
+    pub exit_underflow: u64,
+}
+
+thread_local! {
+    static STATE: RefCell<Snapshot> = RefCell::new(Snapshot::default());
+}
+
+/// Copy of the counters of the current thread.
+pub fn snapshot() -> Snapshot {
+    STATE.with(|s| s.borrow().clone())
+}
+
+/// Clear the counters of the current thread.
+pub fn reset() {
+    STATE.with(|s| *s.borrow_mut() = Snapshot::default());
+}
+
+pub(crate) fn utf8_site(bytes: &[u8], why: &'static str) {
+    STATE.with(|s| {
+        let mut s = s.borrow_mut();
+        *s.utf8_sites.entry(why).or_insert(0) += 1;
+        if std::str::from_utf8(bytes).is_err() && s.utf8_invalid.len() < 16 {
+            s.utf8_invalid.push((why, bytes.to_vec()));
+        }
+    });
+}
+
+#[allow(dead_code)]
+pub(crate) fn on_enter(current: usize) {
+    STATE.with(|s| {
+        let mut s = s.borrow_mut();
+        if current > s.depth_high_water {
+            s.depth_high_water = current;
+        }
+    });
+}
+
+#[allow(dead_code)]
+pub(crate) fn on_exit(current_before: usize) {
+    if current_before == 0 {
+        STATE.with(|s| s.borrow_mut().exit_underflow += 1);
+    }
+}
+
+#[allow(dead_code)]
+pub(crate) fn on_check_depth(depth: usize) {
+    STATE.with(|s| {
+        let mut s = s.borrow_mut();
+        if depth > s.max_key_depth {
+            s.max_key_depth = depth;
+        }
+    });
+}
